@@ -35,6 +35,9 @@ type c08Case struct {
 	SeqZero bool `json:"allow_request_sequence_zero,omitempty"`
 	// SendFail: the transport refuses to send the (SendFail-1)-th request of the operation (0 = none).
 	SendFail int `json:"send_fails_at_request,omitempty"`
+	// StatusLen: length of the AUDIT_GET reply payload (0 = the full 44 bytes): older kernels send 32, 36 or 40
+	// bytes, newer ones may send more
+	StatusLen int `json:"status_reply_bytes,omitempty"`
 }
 
 var c08Ops = []string{"getstatus", "getrules", "addrule", "deleterule", "deleterules", "set-pid", "set-ratelimit", "set-backloglimit", "set-enabled", "set-immutable", "set-failure", "set-backlogwait"}
@@ -102,6 +105,9 @@ func c08Exec(k *c08Case) *c08Outcome {
 	}
 	out.Planned.Rules = rules
 	out.Planned.Status = statusPayload(r, uapi.StatusSize)
+	if k.StatusLen > 0 {
+		out.Planned.Status = statusPayload(r, k.StatusLen)
+	}
 	followStatus := statusPayload(r, uapi.StatusSize)
 
 	dgIndex := 0 // index over the datagrams of the main operation (for fault placement)
@@ -296,6 +302,10 @@ func foreignSeq(seq uint32) uint32 {
 
 func statusEquals(s *libaudit.AuditStatus, b []byte) bool {
 	le := binary.LittleEndian
+	if len(b) < uapi.StatusSize {
+		// fields the reply does not reach read as zero
+		b = append(append([]byte(nil), b...), make([]byte, uapi.StatusSize-len(b))...)
+	}
 	return uint32(s.Mask) == le.Uint32(b[0:]) && s.Enabled == le.Uint32(b[4:]) && s.Failure == le.Uint32(b[8:]) && s.PID == le.Uint32(b[12:]) &&
 		s.RateLimit == le.Uint32(b[16:]) && s.BacklogLimit == le.Uint32(b[20:]) && s.Lost == le.Uint32(b[24:]) && s.Backlog == le.Uint32(b[28:]) &&
 		s.FeatureBitmap == le.Uint32(b[32:]) && s.BacklogWaitTime == le.Uint32(b[36:]) && s.BacklogWaitTimeActual == le.Uint32(b[40:])
@@ -505,6 +515,14 @@ func c08Cases(c *mon.Ctx) []*c08Case {
 						add(c08Case{Op: op, NRules: nr, Errno: errno, StartSeq: start, SeqZero: true, Burst: bu})
 					}
 				}
+			}
+		}
+	}
+	// AUDIT_GET replies of every historical size (and longer ones), with and without faults around them
+	for _, n := range []int{32, 36, 40, 44, 48, 64} {
+		for _, u := range []int{0, 2} {
+			for _, b := range []int{0, 2} {
+				add(c08Case{Op: "getstatus", StatusLen: n, Unsol: []int{u, u}, Burst: []int{b, b}})
 			}
 		}
 	}
